@@ -587,6 +587,7 @@ class ExprBuilder:
         self.facts = facts
         self.memo = {}
         self.stack = set()
+        self._cyc_work = {}
 
     # -- public
     def operand(self, body, o, depth=0):
@@ -685,6 +686,12 @@ class ExprBuilder:
             self.stack.discard(key)
         if not contains_cycle(e):
             self.memo[key] = e
+        else:
+            # a value inside a loop refers to itself: the cut is kept once the work spent on it is large (in big spliced
+            # bodies re-deriving every cyclic value at every use is exponential); ("cycle",) is an unknown leaf to the rules
+            self._cyc_work[key] = self._cyc_work.get(key, 0) + 1
+            if self._cyc_work[key] > 3:
+                self.memo[key] = e
         return e
 
     def _local(self, body, l, depth):
